@@ -454,6 +454,10 @@ type ProtocolDefinition struct {
 	*DefinitionMeta
 	Sequence ProtocolSteps              `json:"sequence"`
 	Versions map[string]*ProtocolChange `json:"-"`
+	// Schema text of this protocol in each listed previous version, including
+	// versions in which the protocol is semantically unchanged (no entry in
+	// Versions) but spelled differently, e.g. after a type was renamed.
+	PreviousSchemas map[string]string `json:"-"`
 }
 
 func (p *ProtocolDefinition) GetDefinitionMeta() *DefinitionMeta {
